@@ -576,6 +576,28 @@ func (env *Env) elabCall(e *SCall) Val {
 					elabFail("allocated: no state")
 				}
 				return Val{T: app("<=", a[0].T, env.cur.alloc), S: SBool}
+			case "deref":
+				// deref(p): *p for a pointer to a basic / named non-struct type (the heap component is chosen
+				// from the Go type of p); pointers to structs are read field by field (p.f)
+				a := args()
+				if env.cur == nil {
+					elabFail("deref: no heap")
+				}
+				if len(a) != 1 || a[0].GoT == nil {
+					elabFail("deref(p): the Go type of p is not known here")
+				}
+				pt, ok := under(a[0].GoT).(*types.Pointer)
+				if !ok {
+					elabFail("deref(p): %s is not a pointer", a[0].GoT)
+				}
+				if _, isStruct := under(pt.Elem()).(*types.Struct); isStruct {
+					elabFail("deref(p): pointer to struct, read its fields instead")
+				}
+				es := ex.sortOf(pt.Elem())
+				if es.K == KString {
+					env.strs = true
+				}
+				return Val{T: app("select", ex.heapGet(env.cur, "ptr."+sanitize(es.Name), es), a[0].T), S: es, GoT: pt.Elem()}
 			case "derefRef":
 				a := args()
 				if env.cur == nil {
